@@ -25,6 +25,7 @@ import (
 	"fmt"
 	"strconv"
 	"strings"
+	"unicode/utf8"
 
 	errorsmod "cosmossdk.io/errors"
 	channeltypes "github.com/cosmos/ibc-go/v8/modules/core/04-channel/types"
@@ -165,6 +166,13 @@ func ValidateCounterpartyID(id string, protocol ProtocolID) error {
 			"counterparty ID cannot contain more than %d characters",
 			MaxCounterpartyIDLength,
 		)
+	}
+
+	// The counterparty ID is exported to the genesis file, which is JSON: bytes
+	// that are not valid UTF-8 are replaced there, so distinct IDs would collapse
+	// into the same exported ID and the exported state could not be imported.
+	if !utf8.ValidString(id) {
+		return errors.New("counterparty ID must be a valid UTF-8 string")
 	}
 
 	var valid bool
